@@ -91,7 +91,11 @@ def enum (toks : List String) : Option String := do
   let best (l : List (List Rl4co.Spec.Ffsp.Op)) : String :=
     match l.map (Rl4co.Spec.Ffsp.makespan i) with | [] => "none" | r :: rs => toString (rs.foldl min r)
   let enc := ";".intercalate (es.map (fun ops => intsStr (Rl4co.Spec.Ffsp.toMatrix i ops)))
-  pure s!"ncand={cands.length} nvalid={vs.length} opt={best vs} nexpr={es.length} optE={best es} expr={enc}"
+  let snd := vs.filter (fun ops => decide (Rl4co.Spec.Ffsp.StrictNonDelay i ops))
+  let sndOk := snd.all (fun ops => Rl4co.Spec.Ffsp.expressible i ops ||
+    !(decide (∀ o, o ∈ ops → ∀ o', o' ∈ ops → o ≠ o' → o.machine = o'.machine → o.start ≠ o'.start)))
+  let nd := vs.filter (fun ops => decide (Rl4co.Spec.Ffsp.NonDelay i ops))
+  pure s!"ncand={cands.length} nvalid={vs.length} opt={best vs} nexpr={es.length} optE={best es} nsnd={snd.length} sndsub={bit sndOk} nnd={nd.length} ndexpr={(nd.filter (Rl4co.Spec.Ffsp.expressible i)).length} optND={best nd} expr={enc}"
 
 /-- `ffsp.tables M bs | rows…`: `list(itertools.permutations(range(M)))` and, for each given row index,
 the `pomo_idx` and the permutation `IndexTables.get_machine_index` uses after `set_bs(bs)`. -/
